@@ -46,7 +46,6 @@ def gen_strtables():
                      ('asciiLetters', string.ascii_letters), ('octdigits', string.octdigits),
                      ('punctuation', string.punctuation), ('printable', string.printable),
                      ('whitespace', string.whitespace)]:
-        body.append('/-- `string.%s` -/' % py.__class__.__name__ if False else '')
         body.append('def %s : List Nat := %s' % (lean, nat_list(map(ord, py))))
     body += ['', '/-- characters `re.escape` puts a backslash before -/',
              'def reSpecial : List Nat := ' + nat_list(special), '',
